@@ -13,14 +13,14 @@ import (
 
 // Env evaluates spec expressions in a pair of states (current, old).
 type Env struct {
-	ex      *Exec
-	cur     *State
-	old     *State
-	sink    *State // where side assumptions (ranges, Euclid definitions) go; defaults to cur
-	vars    map[string]TV
-	cf      *ContractFile
-	inQuant int
-	depth   int
+	ex         *Exec
+	cur        *State
+	old        *State
+	sink       *State // where side assumptions (ranges, Euclid definitions) go; defaults to cur
+	vars       map[string]TV
+	cf         *ContractFile
+	inQuant    int
+	depth      int
 	localsOK   bool
 	loopHeader *ssa.BasicBlock
 }
@@ -640,6 +640,19 @@ func (env *Env) call(e *SExpr) TV {
 	case "ifaceval":
 		a := env.eval(e.Args[0])
 		return mathInt(a.V.(If).Val)
+	case "zero":
+		// zero(): the zero value of the (single) type parameter of the generic function under verification
+		name := "T"
+		if env.ex.fn != nil {
+			if tps := env.ex.fn.TypeParams(); tps != nil && tps.Len() > 0 {
+				name = tps.At(0).Obj().Name()
+			} else if r := env.ex.fn.Signature.Recv(); r != nil {
+				if n := namedOf(r.Type()); n != nil && n.TypeParams() != nil && n.TypeParams().Len() > 0 {
+					name = n.TypeParams().At(0).Obj().Name()
+				}
+			}
+		}
+		return TV{Sc{env.ex.ctx.Const("zero_"+name, SInt)}, nil}
 	case "strlen":
 		return mathInt(env.ex.strLen(env.sinkState(), env.evalInt(e.Args[0])))
 	}
